@@ -774,12 +774,13 @@ def _renumber(tree) -> None:
     never used to report a violation, so its positions are only ever compared with each other."""
     counter = [0]
     line_map = {}
+    orig = {id(n): n.lineno for n in ast.walk(tree) if hasattr(n, "lineno")}
 
     def visit(node):
         if isinstance(node, (ast.stmt, ast.ExceptHandler)):
             counter[0] += 1
             line = counter[0]
-            line_map[line] = getattr(node, "lineno", 0)
+            line_map[line] = orig.get(id(node), 0)
             for n in ast.walk(node):
                 if hasattr(n, "lineno"):
                     n.lineno = line
